@@ -301,7 +301,9 @@ func checkURIAgainstRedirects(client Client, uri string) error {
 		for _, uriGlob := range globClient.RedirectURIGlobs() {
 			isMatch, err := doublestar.Match(uriGlob, uri)
 			if err != nil {
-				return oidc.ErrServerError().WithParent(err)
+				// the redirect_uri could not be validated: the error must not be redirected to it
+				return oidc.ErrInvalidRequestRedirectURI().WithParent(err).
+					WithDescription("The requested redirect_uri could not be checked against the client configuration.")
 			}
 			if isMatch {
 				return nil
